@@ -21,9 +21,11 @@ VARIABLES opened,     \* [agent -> set of object paths announced by connection_o
           socks,      \* [agent -> set of connection socket ids that are open]
           shutReq,    \* [agent -> BOOLEAN] shutdown() was called
           stopReq,    \* [agent -> BOOLEAN] stop() was called
-          nStopped    \* [agent -> Nat] on-stop callbacks seen
+          nStopped,   \* [agent -> Nat] on-stop callbacks seen
+          xstart,     \* [agent -> set of <<path, id>>] transfers announced started (first segment sent)
+          xdone       \* [agent -> set of <<path, id>>] transfers announced finished with success
 
-avars == <<tid, l, kfUsed, opened, closedp, socks, shutReq, stopReq, nStopped>>
+avars == <<tid, l, kfUsed, opened, closedp, socks, shutReq, stopReq, nStopped, xstart, xdone>>
 Agents == {"A", "P"}
 Other(w) == IF w = "A" THEN "P" ELSE "A"
 ToSet(s) == {s[i] : i \in DOMAIN s}
@@ -61,7 +63,11 @@ Clauses(ev) ==
           \* both agents of a scenario only have connections with each other
           C({"C09"}, "PeerOfAnEndedAgentHoldsNoConnection",
               (shutReq[Other(w)] \/ stopReq[Other(w)]) => ToSet(ev.open_socks) = {}),
-          C({"C09"}, "OpenSocketsAreThoseNotSeenClosed", ToSet(ev.open_socks) = socks[w]) }
+          C({"C09"}, "OpenSocketsAreThoseNotSeenClosed", ToSet(ev.open_socks) = socks[w]),
+          \* graceful endings only (shutdown of agents, terminate of single sessions; stop() is immediate by
+          \* definition): a transfer whose first segment was sent is completed and acknowledged
+          C({"C09"}, "TransfersInProgressSurviveGracefulEnding",
+              (~stopReq["A"] /\ ~stopReq["P"]) => xstart[w] \subseteq xdone[w]) }
     [] OTHER -> {}
 
 StepOK(ev) == AllOK(Clauses(ev))
@@ -75,9 +81,12 @@ Upd(ev) ==
   /\ shutReq' = IF ev.a = "Shutdown" THEN [shutReq EXCEPT ![ev.who] = TRUE] ELSE shutReq
   /\ stopReq' = IF ev.a = "Stop" THEN [stopReq EXCEPT ![ev.who] = TRUE] ELSE stopReq
   /\ nStopped' = IF ev.a = "Stopped" THEN [nStopped EXCEPT ![ev.who] = @ + 1] ELSE nStopped
+  /\ xstart' = IF ev.a = "XferStart" THEN [xstart EXCEPT ![ev.who] = @ \cup {<<ev.path, ev.id>>}] ELSE xstart
+  /\ xdone' = IF ev.a = "XferFin" /\ ev.result = "success" THEN [xdone EXCEPT ![ev.who] = @ \cup {<<ev.path, ev.id>>}] ELSE xdone
 
 ObsInit ==
   /\ kfUsed = {}
   /\ opened = [w \in Agents |-> {}] /\ closedp = [w \in Agents |-> {}] /\ socks = [w \in Agents |-> {}]
   /\ shutReq = [w \in Agents |-> FALSE] /\ stopReq = [w \in Agents |-> FALSE] /\ nStopped = [w \in Agents |-> 0]
+  /\ xstart = [w \in Agents |-> {}] /\ xdone = [w \in Agents |-> {}]
 =============================================================================
